@@ -224,7 +224,9 @@ func (w *world) genesisLine(ws []string) {
 			staking.GasOpReclaimEscrow, staking.GasOpAmendCommissionSchedule, staking.GasOpAllow, staking.GasOpWithdraw} {
 			p.GasCosts[op] = transaction.Gas(g)
 		}
-		w.cfg.Genesis.Consensus.Parameters.GasCosts = transaction.Costs{consensusGenesis.GasOpTxByte: 1}
+	}
+	if g := atoi(get("gasbyte")); g > 0 {
+		w.cfg.Genesis.Consensus.Parameters.GasCosts = transaction.Costs{consensusGenesis.GasOpTxByte: transaction.Gas(g)}
 	}
 	p.Slashing = map[staking.SlashReason]staking.Slash{
 		staking.SlashConsensusEquivocation: {Amount: qq(get("slash")), FreezeInterval: beacon.EpochTime(atoi(get("freeze")))},
@@ -362,6 +364,9 @@ func fatalOr(err error) string {
 	return "fatal"
 }
 
+// lastGas / lastSize: gas limit and encoded size of the last transaction (for the model's line).
+var lastGas, lastSize int
+
 func (w *world) tx(f []string) string {
 	signer := atoi(f[1])
 	s := theCast.signers[signer]
@@ -391,6 +396,7 @@ func (w *world) tx(f []string) string {
 		}
 	}
 	rawLen := len(cbor.Marshal(tx)) + 100 // signed envelope
+	lastGas, lastSize = int(tx.Fee.Gas), rawLen
 	// what the mux does in DeliverTx (abci/transaction.go processTx): authenticate + pay fee,
 	// charge gas per transaction byte, execute
 	ctx := w.appState.NewContext(abciAPI.ContextDeliverTx)
@@ -772,7 +778,8 @@ func (w *world) exec(op string) (line string, dump bool, stop bool) {
 		return "init " + r, r == "ok", r != "ok"
 	case "tx":
 		n := map[string]int{"transfer": 7, "burn": 6, "escrow": 7, "reclaim": 7, "allow": 8, "withdraw": 7}[f[4]]
-		return strings.Join(f[:n], " ") + " " + w.tx(f), true, false
+		r := w.tx(f)
+		return fmt.Sprintf("%s %d %d %s %s", strings.Join(f[:4], " "), lastGas, lastSize, strings.Join(f[4:n], " "), r), true, false
 	case "epoch":
 		w.cfg.CurrentEpoch = beacon.EpochTime(atoi(f[1]))
 		w.cfg.EpochChanged = true
@@ -935,7 +942,8 @@ func signature2(d string) string {
 // ---------------------------------------------------------------- generator (live: it looks at the real state)
 
 type gen struct {
-	gasTok string
+	gasTok  string
+	gascost int
 	r   *hlib.Rng
 	w   *world
 	ops []string
@@ -997,7 +1005,7 @@ func (g *gen) emit(op string) bool {
 	f := strings.Fields(line)
 	switch f[0] {
 	case "tx":
-		g.res.Count("tx:" + f[4] + ":" + f[len(f)-1])
+		g.res.Count("tx:" + f[6] + ":" + f[len(f)-1])
 	case "begin", "end", "init", "slash", "tfc", "addrewards", "govdep", "govref", "govdisc":
 		g.res.Count("op:" + f[0] + ":" + f[len(f)-1])
 	}
@@ -1085,7 +1093,7 @@ func (g *gen) tx() bool {
 	}
 	head := fmt.Sprintf("tx %d %d %s ", s, n, fee)
 	g.gasTok = ""
-	if spec != "c05" {
+	if g.gascost > 0 && (spec != "c05" || r.Chance(1, 4)) {
 		// gas limits that exhaust at the per-byte charge, at the operation's charge, or never
 		g.gasTok = fmt.Sprintf(" gas=%d", []int{0, 50, 150, 250, 305, 1000000, 1000000}[r.Intn(7)])
 	}
@@ -1180,8 +1188,9 @@ func genCase(r *hlib.Rng, nblocks int, res *hlib.Result) []string {
 		g.mtb, pick(0, 0, 1, 50), pick(0, 0, 1, 100), pick(0, 1, 1, 2, 3), pick(0, 1, 2, 8, 8), pick(0, 0, 0, 0, 0, 0, 0, 1), pick(0, 0, 0, 0, 0, 0, 0, 1),
 		pick(0, 1, 2, 7), pick(0, 1, 1, 3), pick(0, 1, 1, 5), sched, pick(0, 1, 1000, 100000000), pick(0, 1, 1000, 100000000),
 		thrN, thrD, mincom, pick(0, 1, 1000, 1000000000000), pick(0, 0, 1))
-	if spec != "c05" {
-		params += " gascost=100"
+	if spec != "c05" || r.Chance(1, 3) {
+		params += " gascost=100 gasbyte=1"
+		g.gascost = 100
 	}
 	if strings.Contains(params, "wP=0 wV=0 wN=0") {
 		params = strings.Replace(params, "wP=0", "wP=1", 1)
